@@ -1,6 +1,6 @@
 """C17 - see DESIGN.md 5/C17 (Lifecycle.tla)."""
 from harness import core
-from checks import suite_lifecycle, suite_drolifecycle
+from checks import suite_lifecycle, suite_drolifecycle, suite_misuse
 
 
 def main(tier):
@@ -14,6 +14,8 @@ def main(tier):
                        'oracle = the same library on a fresh single-constraint model (relational, as the property is stated)']
     suite_lifecycle.run(rep, tier, props=('C17',))
     suite_drolifecycle.run(rep, tier, props=('C17',))
+    # the misuse table over every pair of model classes (lp, socp, gcp, ro, dro), before and after a first solve
+    suite_misuse.run(rep, tier, props=('C17',))
     return rep.finish()
 
 
